@@ -163,6 +163,61 @@ def make_predictor(hs, style):
     return lambda X: arr
 
 
+# ------------------------------------------------------------------ is the translator tie intact?
+# sha1 of the generated files the compiled Moments / Oracle model computes with, as lifted from the pinned tree.  A
+# model-vs-oracle disagreement is a bug of this machinery (HARNESS-ERROR) only while these files have the pinned content AND
+# no lifter behind a generated file of the property's import closure refused the tree under test (after a refusal the
+# file on disk is STALE: the model still follows the old text).  Otherwise it is a broken tie: a correspondence problem.
+PINNED_GENERATED = {
+    "MomentsSrc.lean": "ed9507e5fbdbe06c76eba46fca14333b5491ac00",
+    "LossRange.lean": "6be446ddd8548f558dee6434c1374eaafc3d488c",
+    "ProjectLambdaSrc.lean": "da3c0da380a16d666e93922128cb2caf1fe1347b",
+    "ValidationTables.lean": "26ec6e4d9b5ed5db709093f0a93035e3d9b202bd",
+    "OracleSrc.lean": "906344d5dc3d031ce859d707a060656da682078b",
+}
+_TIE = {}
+
+
+def tie_changes(module, pinned=None):
+    """generated files whose text differs from the pinned one, plus lifter refusals that concern `module` (cached)"""
+    key = module
+    if key not in _TIE:
+        import hashlib
+        import os
+        from .. import core, translate
+        pinned = PINNED_GENERATED if pinned is None else pinned
+        ch = []
+        try:
+            info = translate.run(core.REPO)
+            deps = translate.generated_deps(module)
+            for fn, msg in (info.get("_refused") or {}).items():
+                if fn in deps or fn in pinned or fn.startswith("?"):
+                    ch.append(f"{fn}: lifter refused ({str(msg)[:100]})")
+        except Exception as e:  # noqa: BLE001  (a crashing lifter is a broken tie as well)
+            ch.append(f"translator failed: {type(e).__name__}: {str(e)[:100]}")
+        for fn, sha in pinned.items():
+            try:
+                with open(os.path.join(translate.GEN_DIR, fn), "rb") as f:
+                    cur = hashlib.sha1(f.read()).hexdigest()
+            except OSError:
+                cur = None
+            if cur != sha:
+                ch.append(f"{fn}: generated text changed")
+        _TIE[key] = ch
+    return _TIE[key]
+
+
+def demote_harness(probs, module, relation):
+    """model-vs-oracle disagreements become correspondence problems (broken tie) once the tie is not intact"""
+    if not any(p.kind == "harness" for p in probs):
+        return probs
+    ch = tie_changes(module)
+    if not ch:
+        return probs
+    return [Problem("correspondence", p.msg + f"; the translator tie is broken: {ch[:3]}", relation) if p.kind == "harness" else p
+            for p in probs]
+
+
 # ------------------------------------------------------------------ a moment object may have a PREVIOUS LIFE
 # Moment objects are re-loadable (`load_data` may be called again, and the mitigators do call it on user-supplied objects).
 # With probability ~0.3 the object under test has first been loaded on an AUXILIARY data set of a different length and
@@ -671,9 +726,10 @@ class CHECK(Check):
             model = {tag: out for (tag, _), out in zip(self._plan(case), mo)}
             bad = [t for t, v in model.items() if v == "bad-op"]
             if bad:
-                return [Problem("harness", f"driver rejected lines {bad}")]
+                return demote_harness([Problem("harness", f"driver rejected lines {bad}")], self.module,
+                                      "C06.generated-model-vs-spec")
         kind = case["kind"]
-        return getattr(self, "_judge_" + kind)(case, o, model)
+        return demote_harness(getattr(self, "_judge_" + kind)(case, o, model), self.module, "C06.generated-model-vs-spec")
 
     def _judge_cfg(self, case, o, model):
         probs = []
